@@ -5,6 +5,7 @@ import (
 	"os"
 	"runtime"
 	"sort"
+	"strings"
 	"sync"
 	"time"
 )
@@ -599,4 +600,31 @@ func (s *Sched) Run(timeout time.Duration) string {
 		s.unlock()
 	}
 	return s.problem
+}
+
+// GoroutineBlockedInLock inspects all goroutine stacks and reports whether a
+// goroutine that runs the function named fn is blocked inside a lock
+// acquisition of package sync (Mutex.Lock, RWMutex.Lock, RWMutex.RLock). Used
+// by the modes that queue a REAL goroutine on a lock of the code under test
+// and then let the lock, not timing, decide who runs.
+func GoroutineBlockedInLock(fn string) bool {
+	buf := make([]byte, 1<<18)
+	n := runtime.Stack(buf, true)
+	for _, sec := range strings.Split(string(buf[:n]), "\n\n") {
+		if !strings.Contains(sec, fn) {
+			continue
+		}
+		nl := strings.IndexByte(sec, '\n')
+		if nl < 0 {
+			continue
+		}
+		head := sec[:nl]
+		if strings.Contains(head, "running") || strings.Contains(head, "runnable") {
+			continue
+		}
+		if strings.Contains(sec, "RWMutex).RLock") || strings.Contains(sec, "RWMutex).Lock") || strings.Contains(sec, "Mutex).Lock") {
+			return true
+		}
+	}
+	return false
 }
